@@ -12,6 +12,7 @@ needs no analysis.
 -/
 import OdlModel.Model.Deriv
 import OdlModel.Lemmas.Deriv
+import OdlModel.Lemmas.UfuncDeriv
 
 open OdlModel.Deriv OdlModel.Deriv.Impl OdlModel.Deriv.Dual
 
@@ -95,3 +96,52 @@ theorem C06.deriv_affine {R : Type} [CommRing R] [DecidableEq R]
     ∃ j, (Impl.vecsum op v).deriv x = some j ∧ ∀ (d : Vec R) (k : Nat), j.run d k = op.run d k := by
   obtain ⟨j, e, _⟩ := deriv_type op x hwf
   exact ⟨j, by simpa [Impl.deriv] using e, OdlModel.Deriv.deriv_linear op hwf hl x j e⟩
+
+section ufunc
+open OdlModel.UfuncDeriv OdlModel.Gen.UfuncDeriv
+
+
+/-- The `(f, f')` table of the ufunc operators, as extracted from
+`odl/ufunc_ops/ufunc_ops.py::derivative_factory` on this run (`Gen/UfuncDeriv.lean`): for every
+branch, the multiplicand of the returned `MultiplyOperator`, read point-wise over `ℝ`, is the
+derivative of the ufunc at every point where the ufunc is differentiable (`tan`: `cos t ≠ 0`,
+`sqrt`/`log`: `t > 0`, `reciprocal`: `t ≠ 0`).  A changed sign, factor or function in the
+source changes the generated table and this proof stops checking. -/
+theorem C06.ufunc_table_sound :
+    ∀ p ∈ table, ∀ t : ℝ, p.1.smoothAt t → HasDerivAt p.1.real (p.2.eval p.1 t) t := by
+  intro p hp t ht
+  simp only [table, List.mem_cons, List.mem_nil_iff, or_false] at hp
+  rcases hp with rfl | rfl | rfl | rfl | rfl | rfl | rfl | rfl | rfl | rfl <;>
+    simp only [Fn.real, Expr.eval, Fn.smoothAt] at ht ⊢
+  · exact Real.hasDerivAt_sin t
+  · exact Real.hasDerivAt_cos t
+  · convert Real.hasDerivAt_tan ht using 1
+    rw [Real.tan_eq_sin_div_cos]
+    field_simp
+    push_cast
+    rw [one_mul, one_mul, add_comm, Real.sin_sq_add_cos_sq]
+  · convert Real.hasDerivAt_sqrt ht.ne' using 1
+    have : Real.sqrt t ≠ 0 := (Real.sqrt_pos.mpr ht).ne'
+    field_simp
+    push_cast
+    ring
+  · have h := hasDerivAt_pow 2 t
+    have e : ((2 : ℤ) : ℝ) / ((1 : ℕ) : ℝ) * t = ((2 : ℕ) : ℝ) * t ^ (2 - 1) := by
+      push_cast; ring
+    rw [e]; exact h
+  · convert Real.hasDerivAt_log ht.ne' using 1
+    push_cast
+    simp
+  · exact Real.hasDerivAt_exp t
+  · have h := hasDerivAt_inv (𝕜 := ℝ) ht
+    rw [inv_pow]; exact h
+  · exact Real.hasDerivAt_sinh t
+  · exact Real.hasDerivAt_cosh t
+
+/-- Non-vacuity: the table has the ten branches of the source, `tan` is one of them and is
+smooth at `0`. -/
+example : table.length = 10 ∧ (table.map (·.1)).Nodup ∧ Fn.tan.smoothAt 0 := by
+  refine ⟨by decide, by decide, ?_⟩
+  simp [Fn.smoothAt]
+
+end ufunc
